@@ -7,7 +7,7 @@ two further attempts, each compared with a fresh configure."""
 import json
 import os
 
-from engine import TreeBroken
+from engine import TreeBroken, run
 from engine import (Check, tlc, tlc_ok, validate, validate_traces, pmap, BIN,
                     MachineryError)
 import regen
@@ -201,6 +201,99 @@ def run_scenario(sc, modes, ck_quick):
         p.close()
 
 
+def reconfigure_scenario(arg):
+    """an existing build directory is configured AGAIN with different settings
+    (another prefix) and that run is killed / fails at every mutation point.
+    Afterwards `make` and an explicit `bfg9000 regenerate` run.  A successful
+    attempt must leave the files of the NEW configuration - or, as long as
+    the saved configuration still is the old one byte for byte, those of the
+    old configuration (the interrupted run then never took effect)."""
+    backend, modes = arg
+    name = 'reconfigure' + ('/ninja' if backend == 'ninja' else '')
+    p = regen.Proj(PKG, backend=backend, args=['--prefix', '/opt/old one'])
+    traces = []
+    try:
+        rc, out = p.configure()
+        if rc == 0:
+            rc, out = p.tool()
+        if rc != 0:
+            raise TreeBroken('configure/build failed in %s: %s' % (
+                name, out[-300:]))
+        p.tick()
+        p.save('base')
+        envfile = os.path.join(p.bld, '.bfg_environ')
+        base_env = open(envfile, 'rb').read()
+        frc, fresh_old, _, _ = p.fresh()
+        p.args = ['--prefix', '/opt/new']
+        frc2, fresh_new, _, _ = p.fresh()
+        if frc or frc2 or fresh_old == fresh_new:
+            raise TreeBroken('fresh configures of %s unusable' % name)
+        shim = {'BFG9000_VERIF': '1', 'PYTHONPATH': regen.SHIM + (
+            ':' + regen.REPO if regen.REPO != '/repo' else ''),
+            'BFG9000_VERIF_ROOT': p.bld}
+        log = os.path.join(p.root, 'mut.log')
+        rc, out = p.configure(env=dict(shim, BFG9000_VERIF_LOG=log))
+        muts = regen.read_mutlog(log)
+        if rc != 0 or not muts:
+            raise TreeBroken('re-configure of %s: %s' % (name, out[-300:]))
+
+        def verdict(rc_, before):
+            now = p.outputs()
+            bf = os.path.basename(p.buildfile)
+            try:
+                env_now = open(envfile, 'rb').read()
+            except OSError:
+                env_now = None
+            ok = now == fresh_new or (now == fresh_old and
+                                      env_now == base_env)
+            return {'ev': 'Attempt', 'exit': rc_, 'fresh': ok,
+                    'diff': 'other',
+                    'envstate': 'old' if env_now == base_env else
+                    'absent' if env_now is None else 'new-or-partial',
+                    'mkstate': 'new' if now == fresh_new else
+                    'old' if now == fresh_old else 'other',
+                    'unchanged': now.get(bf) == before.get(bf),
+                    'rewrote': now.get(bf) != before.get(bf),
+                    'must_succeed': False,
+                    'state': regen.file_state(p.buildfile)}
+        for k in range(1, len(muts) + 1):
+            for mode in modes:
+                if mode == 'enospc' and muts[k - 1]['side'] != 'pre':
+                    continue
+                p.restore('base')
+                if os.path.exists(log):
+                    os.remove(log)
+                rc, out = p.configure(env=dict(
+                    shim, BFG9000_VERIF_LOG=log,
+                    BFG9000_VERIF_FAULT='%d:%s' % (k, mode)))
+                seen = regen.read_mutlog(log)
+                events = [{'ev': 'Edit', 'op': 'reconfigure', 'path': ''}]
+                events += [{'ev': 'Mut', 'k': m['k'], 'op': m['op'],
+                            'file': m['file'], 'side': m['side']}
+                           for m in seen if m['k'] <= k]
+                events.append({'ev': 'Fault', 'k': k, 'mode': mode})
+                b = p.outputs()
+                p.tick()
+                rc1, o1 = p.tool()
+                e1 = verdict(rc1, b)
+                e1['tail'] = o1[-200:] if rc1 else ''
+                events.append(e1)
+                b = p.outputs()
+                rc2, o2 = run(['/venv/bin/bfg9000', 'regenerate', p.bld],
+                              cwd=p.root, env=p.env)
+                e2 = verdict(rc2, b)
+                e2['tail'] = o2[-200:] if rc2 else ''
+                events.append(e2)
+                m = muts[k - 1]
+                traces.append({'scenario': name, 'k': k, 'mode': mode,
+                               'point': '%s(%s):%s' % (m['op'], m['file'],
+                                                       m['side']),
+                               'events': events})
+        return traces
+    finally:
+        p.close()
+
+
 def raise_scenario(sc):
     """the edited script raises: previous build file untouched, visible
     failure; after repairing the script the next attempt is fresh"""
@@ -271,7 +364,10 @@ def main(argv):
     modes = ['kill', 'enospc']
     results = pmap(lambda sc: run_scenario(sc, modes, ck.quick), scs, jobs=8)
     raises = pmap(raise_scenario, scs[:2] if ck.quick else scs, jobs=8)
-    runs = [t for tr, _ in results for t in tr] + raises
+    reconf = pmap(reconfigure_scenario, [('make', modes)] + (
+        [] if ck.quick else [('ninja', modes)]), jobs=2)
+    runs = [t for tr, _ in results for t in tr] + raises + \
+        [t for tr in reconf for t in tr]
     ck.note('mutation_sequences', {sc[0]: ['%s(%s):%s' % m for m in order]
                                    for sc, (_, order) in zip(scs, results)})
     # design-level conformance of the recorded mutation orders
@@ -312,7 +408,8 @@ def main(argv):
               'not behaviours of Regen.tla (first: %s)' % (
                   len(unexplained), unexplained[0]))
     traces = [{'id': i + 1, 'events': [
-        {k: v for k, v in e.items() if k not in ('tail', 'state')}
+        {k: v for k, v in e.items() if k not in ('tail', 'state', 'envstate',
+                                                  'mkstate')}
         for e in tr['events']]} for i, tr in enumerate(runs)]
     rej, st = validate_traces('Regen_Trace', TRACE, traces, chunk=200)
     ck.traces = len(traces)
@@ -324,6 +421,12 @@ def main(argv):
         backend = 'ninja' if tr['scenario'].endswith('/ninja') else 'make'
         key = 'C10:%s:%s:%s:after=%s' % (info[0], backend, tr['mode'],
                                         tr['point'])
+        if tr['scenario'].startswith('reconfigure'):
+            e_ = tr['events'][info[1] - 1]
+            nth = len([x for x in tr['events'][:info[1]]
+                       if x['ev'] == 'Attempt'])
+            key = 'C10:%s:reconfigure:%s:attempt%d:env=%s:files=%s' % (
+                info[0], backend, nth, e_.get('envstate'), e_.get('mkstate'))
         ck.report(key, '%s in scenario %s: fault %s at point %d %s; event '
                   '%d: %s' % (info[0], tr['scenario'], tr['mode'], tr['k'],
                               tr['point'], info[1],
